@@ -49,7 +49,7 @@ def run(ctx):
                rule="R1: spec/Stream.tla (ReadFull header, ReadFull body over a fragmenting source) explored for every stream of <= 3 scaled messages, every truncation and every fragmentation; "
                     "R2: spec/StreamGen.tla enumerates real-size streams (sizes around the 1 KiB pooled buffer) x <= 2 split points at landmarks x truncation landmarks x declared lengths 0..19; "
                     "plus seeded random long streams (<= 200 messages, 1-byte reads included); each read by ReadMessage on a fragment-exact reader and by a real connection over memnet. "
-                    "non-trivial = >= 2 messages, or a split, or a truncation, or a declared length < 20; distinct by (path, sizes, cut, fragmentation) Since extended: a fourth path, an accepted connection of a server with ReadTimeout whose peer stalls after `stallat` bytes for longer than the timeout (model action Timeout); data returned together with EOF by the reader; a slow but healthy peer under ReadTimeout (two waits of 0.6 x the timeout, the second inside a message).",
+                    "non-trivial = >= 2 messages, or a split, or a truncation, or a declared length < 20; distinct by (path, sizes, cut, fragmentation) Since extended: a fourth path, an accepted connection of a server with ReadTimeout whose peer stalls after `stallat` bytes for longer than the timeout (model action Timeout); data returned together with EOF by the reader; a slow but healthy peer under ReadTimeout (two waits of 0.6 x the timeout, the second inside a message); messages above 64 KiB; MessageBufferLength raised at run time; a caller's own bufio.Reader; last bytes with EOF under CloseNotify.",
                samples=[dict(path=l["path"], lens=l["lens"][:6], total=l["total"], chunks=l["chunks"][:8], results=l["results"][:4]) for l in lines[0:len(lines):max(1, len(lines) // 3)]][:4],
                exhaustive=False, r1_states=r1["distinct"], rejected_lines=len(bad), known_finding_hits={k: n for k, (n, _) in v.hits.items()})
     rc = v.finish()
